@@ -449,7 +449,8 @@ func RandomOptions(r *rand.Rand, n int, boostWords []string) database.SearchOpti
 	if r.Intn(3) == 0 && len(boostWords) > 0 {
 		o.ContextBoosts = map[string]float64{}
 		for i, k := 0, 1+r.Intn(4); i < k; i++ {
-			o.ContextBoosts[pick(r, boostWords)] = []float64{1, 1.3, 1.5, 2, 3, 10, 1e3, 1e6}[r.Intn(8)]
+			// (mostly ordinary factors; now and then a tiny or subnormal one - a positive number whose products underflow to zero)
+			o.ContextBoosts[pick(r, boostWords)] = []float64{1, 1.3, 1.5, 2, 3, 10, 1e3, 1e6, 1, 1.5, 2, 3, 0.25, 1e-300, 1e-310, 5e-324}[r.Intn(16)]
 		}
 	}
 	return o
@@ -471,4 +472,37 @@ func WithOddCase(r *rand.Rand, q string) string {
 	default:
 		return w + " " + q + " " + w + w
 	}
+}
+
+// Request is a query with its options.
+type Request struct {
+	Q string
+	O database.SearchOptions
+}
+
+// SmuggledPairs builds pairs of different requests (A, B) in which a free-text field of one spells out the scalar options of
+// the other behind a separator: if a request is ever identified by its fields written one after the other without quoting or
+// length prefixes (query, then the scalar options in declaration order, then the platform names), A and B read the same.
+// A carries oA and B carries oB (their Platforms are replaced); q should have matches so that the answers differ by limit.
+func SmuggledPairs(q string, oA, oB database.SearchOptions) [][2]Request {
+	scalars := func(o database.SearchOptions) []string {
+		return []string{fmt.Sprint(o.Limit), fmt.Sprint(o.PipelineOnly), fmt.Sprint(o.PipelineBoost), fmt.Sprint(o.UseFuzzy), fmt.Sprint(o.FuzzyThreshold),
+			fmt.Sprint(o.UseNLP), fmt.Sprint(o.TopTermsCap), fmt.Sprint(o.AllPlatforms), fmt.Sprint(o.NoCrossPlatform)}
+	}
+	var out [][2]Request
+	for _, sep := range []string{"|", ":", ",", ";", " ", "\t", "/", "\x1f", "\n", "#", "="} {
+		block := func(o database.SearchOptions) string { return sep + strings.Join(scalars(o), sep) + sep }
+		a, b := oA, oB
+		a.ContextBoosts, b.ContextBoosts = nil, nil
+		a.Platforms = []string{"z"}
+		b.Platforms = []string{block(oA) + "z"}
+		out = append(out, [2]Request{{q + block(oB), a}, {q, b}})
+		// the same with the platform list written first
+		a2, b2 := oA, oB
+		a2.ContextBoosts, b2.ContextBoosts = nil, nil
+		a2.Platforms = []string{"z" + block(oB)}
+		b2.Platforms = []string{"z"}
+		out = append(out, [2]Request{{q, a2}, {block(oA) + q, b2}})
+	}
+	return out
 }
